@@ -1,5 +1,6 @@
 """setup_cmd: offline build of the framework = syntax/semantic check of every TLA+ module with
-SANY (generated constants included), PlusCal translation where needed, smoke import of /repo."""
+SANY (each with the generated companion modules it extends), PlusCal translation where needed,
+smoke import of /repo."""
 import glob
 import os
 import subprocess
@@ -8,19 +9,35 @@ import sys
 from . import common, runconf, shapes as shp
 
 
-def main() -> int:
-    files = {
-        "ShapeData.tla": shp.shape_data_module(shp.quick_shapes()),
+def companions():
+    """top-level module -> generated companion modules needed to parse it"""
+    from . import storeconf
+    eval_files = {
+        "ShapeData.tla": shp.shape_data_module(shp.quick_shapes() + shp.load_shapes() + shp.boundary_shapes()),
         "RunConf.tla": runconf.runconf(1, "local", "package", [["eval"]], False, [1], ["one"]),
     }
-    d = common.stage_spec(files, "setup")
-    rc = 0
-    for gen in sorted(glob.glob(os.path.join(common.VERIF, "harness", "gen_*.py"))):
+    res = {
+        "DdsEval.tla": eval_files,
+        "StoreModel.tla": {"StoreConf.tla": storeconf.design(["k1", "k2"], ["k2"], 2, 1, False, "local", 3, False)},
+        "StoreTrace.tla": {"StoreConf.tla": storeconf.trace()},
+    }
+    try:
+        from . import extra_setup
+        res.update(extra_setup.companions())
+    except ImportError:
         pass
-    for f in sorted(glob.glob(os.path.join(d, "*.tla"))):
-        mod = os.path.basename(f)
-        if mod in SKIP_SANY:
+    return res
+
+
+def main() -> int:
+    rc = 0
+    comp = companions()
+    tops = sorted(os.path.basename(f) for f in glob.glob(os.path.join(common.SPEC_DIR, "*.tla")))
+    for mod in tops:
+        if mod not in comp:
+            # library modules are checked through the modules that extend them
             continue
+        d = common.stage_spec(comp[mod], "setup_" + mod[:-4])
         p = subprocess.run(["java", "-cp", common.TLA_CP, "tla2sany.SANY", mod], cwd=d,
                            stdout=subprocess.PIPE, stderr=subprocess.STDOUT)
         out = p.stdout.decode()
@@ -29,15 +46,15 @@ def main() -> int:
         if not ok:
             print(out[-1500:])
             rc = 1
+    unchecked = [m for m in tops if m not in comp]
+    if unchecked:
+        print("library modules (checked through their users): %s" % ", ".join(unchecked))
     sys.path.insert(0, common.REPO)
     import dds  # noqa
     print("import dds %s from %s" % (dds.__version__, os.path.dirname(dds.__file__)))
     os.makedirs(common.EVIDENCE_DIR, exist_ok=True)
     return rc
 
-
-# modules that need generated companions not produced by this smoke setup
-SKIP_SANY = set()
 
 if __name__ == "__main__":
     sys.exit(main())
